@@ -13,6 +13,7 @@ import itertools
 
 from mc import cells as C
 from mc import sgr
+from mc import repeat
 from mc.runner import Acc, Report
 
 LEVEL = "model_checking"
@@ -502,6 +503,7 @@ def check_invalid(acc):
 
 def run(ctx):
     rep = Report()
+    repeat.run_into(ctx, rep, "C14")
     for d in ctx.pmap(shard_single, [(ctx.tier, ctx.seed, i) for i in range(16)]):
         rep.merge(d, "single_attribute_all_spellings")
     for d in ctx.pmap(shard_multi, [(ctx.tier, ctx.seed, i) for i in range(16)]):
